@@ -202,9 +202,9 @@ def _lattice_cfg(draw, tier, group, pick):
     # squeeze of the finaliser, which reduces over the lattice axes per unit
     # (audit mutant M-C09-3 survived a run with too few of these).
     if not lcfg["ew"] and not lcfg["tz"]:
+      ju = set(d for g in lcfg["junimod"] for d in g[0])   # after the boosts
       mains = [d for d in range(n) if lcfg["mono"][d] == 1] or [
-          d for d in range(n) if lcfg["unimod"][d] == 0 and
-          d not in in_junimod][:1]
+          d for d in range(n) if lcfg["unimod"][d] == 0 and d not in ju][:1]
       if mains:
         m = mains[0]
         lcfg["mono"][m] = 1
